@@ -8,7 +8,10 @@ import CwPlus.Base.Paginate
 Transcribed from `contract.rs` (`instantiate`, `create_accounts`, `validate_accounts`,
 `execute_{transfer,burn,mint,send,update_minter}`, queries, `migrate`),
 `allowances.rs` (all six handlers, `deduct_allowance`, `query_allowance`) and
-`enumerable.rs` (three listings).  Marketing / logo handlers are not modelled.
+`enumerable.rs` (three listings); marketing / logo: `verify_xml_preamble`, `verify_xml_logo`,
+`verify_png_logo`, `verify_logo`, the marketing part of `instantiate`, `execute_update_marketing`,
+`execute_upload_logo`, `query_marketing_info`, `query_download_logo` (`packages/cw20/src/logo.rs` types).
+Byte strings (`Binary`) are lists of naturals (each < 256 when they come off the wire).
 
 `addr_validate` is an external call: every address argument carries the result
 of validation (`AddrArg.valid`).  A handler returns `Res (State × List Out)`;
@@ -46,6 +49,30 @@ structure Version where
 def CONTRACT_NAME : String := "crates.io:cw20-base"
 def CONTRACT_VERSION : Nat × Nat × Nat := (2, 0, 0)
 
+/-- `Binary` -/
+abbrev Bytes := List Nat
+
+/-- `cw20::Logo` (`Embedded(Svg|Png)` flattened). -/
+inductive Logo where
+  | url (u : String)
+  | svg (data : Bytes)
+  | png (data : Bytes)
+  deriving Repr, DecidableEq, Inhabited
+
+/-- `cw20::LogoInfo` -/
+inductive LogoInfo where
+  | url (u : String)
+  | embedded
+  deriving Repr, DecidableEq, Inhabited
+
+/-- `MarketingInfoResponse` (also the stored type of `MARKETING_INFO`). -/
+structure MarketingInfo where
+  project : Option String := none
+  description : Option String := none
+  marketing : Option Addr := none
+  logo : Option LogoInfo := none
+  deriving Repr, DecidableEq, Inhabited
+
 structure State where
   supply : Nat
   mint : Option Minter
@@ -55,6 +82,10 @@ structure State where
   /-- `ALLOWANCES_SPENDER`, keyed `(spender, owner)` -/
   allowSp : AMap (Addr × Addr) Allowance
   version : Version
+  /-- `MARKETING_INFO` (`Item`, may be absent) -/
+  marketing : Option MarketingInfo := none
+  /-- `LOGO` (`Item`, may be absent) -/
+  logo : Option Logo := none
   deriving Repr, Inhabited
 
 /-- The only message cw20-base ever emits: `Cw20ReceiveMsg` wrapped in a `WasmMsg::Execute`
@@ -77,6 +108,16 @@ inductive Msg where
   | transferFrom (owner to : AddrArg) (amt : Nat)
   | burnFrom (owner : AddrArg) (amt : Nat)
   | sendFrom (owner contract : AddrArg) (amt : Nat) (payload : String)
+  | updateMarketing (project description : Option String) (marketing : Option AddrArg)
+  | uploadLogo (logo : Logo)
+  deriving Repr, Inhabited
+
+/-- `InstantiateMarketingInfo` -/
+structure InstMarketing where
+  project : Option String := none
+  description : Option String := none
+  marketing : Option AddrArg := none
+  logo : Option Logo := none
   deriving Repr, Inhabited
 
 structure InstMsg where
@@ -85,6 +126,7 @@ structure InstMsg where
   decimals : Nat
   initial : List (AddrArg × Nat)
   mint : Option (AddrArg × Option Nat)
+  marketing : Option InstMarketing := none
   deriving Repr, Inhabited
 
 def bal (s : State) (a : Addr) : Nat := (s.balances.get? a).getD 0
@@ -108,6 +150,59 @@ def createAccounts : List (AddrArg × Nat) → AMap Addr Nat → Nat → Res (AM
     let total' ← addU128 total amt
     createAccounts rest (bals.set a.text amt) total'
 
+/-! ## logo validation -/
+
+def LOGO_SIZE_CAP : Nat := 5 * 1024
+
+/-- `b"<?xml "` -/
+def XML_PREFIX : Bytes := [60, 63, 120, 109, 108, 32]
+/-- `b"?>"` -/
+def XML_POSTFIX : Bytes := [63, 62]
+/-- `[0x89, b'P', b'N', b'G', 0x0d, 0x0a, 0x1a, 0x0a]` -/
+def PNG_HEADER : Bytes := [137, 80, 78, 71, 13, 10, 26, 10]
+
+/-- First item of `data.split_inclusive(|c| *c == b'>')`: everything up to and including the first
+`>` (all of `data` when there is none).  On empty input the Rust iterator yields nothing; the empty
+list returned here fails the prefix test just the same. -/
+def firstSegment : Bytes → Bytes
+  | [] => []
+  | b :: rest => if b = 62 then [b] else b :: firstSegment rest
+
+/-- `verify_xml_preamble` -/
+def verifyXmlPreamble (data : Bytes) : Res Unit :=
+  let p := firstSegment data
+  check (!data.isEmpty && XML_PREFIX.isPrefixOf p && XML_POSTFIX.isSuffixOf p) "invalid_xml_preamble"
+
+/-- `verify_xml_logo`: preamble first, then the size cap. -/
+def verifyXmlLogo (data : Bytes) : Res Unit := do
+  verifyXmlPreamble data
+  check (decide (data.length ≤ LOGO_SIZE_CAP)) "logo_too_big"
+
+/-- `verify_png_logo`: size cap first, then the eight header bytes. -/
+def verifyPngLogo (data : Bytes) : Res Unit := do
+  check (decide (data.length ≤ LOGO_SIZE_CAP)) "logo_too_big"
+  check (PNG_HEADER.isPrefixOf data) "invalid_png_header"
+
+/-- `verify_logo`: URLs are not validated at all. -/
+def verifyLogo : Logo → Res Unit
+  | .svg d => verifyXmlLogo d
+  | .png d => verifyPngLogo d
+  | .url _ => pure ()
+
+def logoInfoOf : Logo → LogoInfo
+  | .url u => .url u
+  | _ => .embedded
+
+/-- The marketing part of `instantiate`: verify and store the logo, validate the marketing address. -/
+def instMarketing : Option InstMarketing → Res (Option MarketingInfo × Option Logo)
+  | none => pure (none, none)
+  | some mk => do
+    (match mk.logo with | some l => verifyLogo l | none => pure () : Res Unit)
+    let addr ← (match mk.marketing with
+      | some a => do check a.valid "addr"; pure (some a.text)
+      | none => pure none : Res (Option Addr))
+    pure (some ⟨mk.project, mk.description, addr, mk.logo.map logoInfoOf⟩, mk.logo)
+
 def instantiate (m : InstMsg) : Res State := do
   check (validMeta m) "meta"
   -- `validate_accounts`: sort + dedup on the address *strings*
@@ -117,8 +212,9 @@ def instantiate (m : InstMsg) : Res State := do
   let mint ← (match m.mint with
     | some (a, cap) => do check a.valid "addr"; pure (some (Minter.mk a.text cap))
     | none => pure none : Res (Option Minter))
+  let (mk, logo) ← instMarketing m.marketing
   pure { supply := total, mint := mint, balances := bals, allow := [], allowSp := [],
-         version := ⟨CONTRACT_NAME, 2, 0, 0⟩ }
+         version := ⟨CONTRACT_NAME, 2, 0, 0⟩, marketing := mk, logo := logo }
 
 /-! ## execute -/
 
@@ -243,6 +339,58 @@ def execSendFrom (s : State) (blk : Block) (snd : Addr) (owner c : AddrArg) (amt
   let b2 ← credit b1 c.text amt
   pure ({ s1 with balances := b2 }, [⟨c.text, snd, amt, payload⟩])
 
+/-! ## marketing -/
+
+/-- Rust `char::is_whitespace` (Unicode `White_Space`). -/
+def isWhiteSpace (c : Char) : Bool :=
+  let n := c.toNat
+  (9 ≤ n && n ≤ 13) || n == 0x20 || n == 0x85 || n == 0xA0 || n == 0x1680 || (0x2000 ≤ n && n ≤ 0x200A) ||
+  n == 0x2028 || n == 0x2029 || n == 0x202F || n == 0x205F || n == 0x3000
+
+/-- `s.trim().is_empty()` -/
+def isBlank (s : String) : Bool := s.toList.all isWhiteSpace
+
+/-- One text field of `UpdateMarketing`: absent keeps, blank clears, anything else replaces. -/
+def updText (old : Option String) : Option String → Option String
+  | none => old
+  | some t => if isBlank t then none else some t
+
+/-- The `marketing` field of `UpdateMarketing`: blank clears, otherwise the (untrimmed) text is validated. -/
+def updAddr (old : Option Addr) : Option AddrArg → Res (Option Addr)
+  | none => pure old
+  | some a => if isBlank a.text then pure none else do check a.valid "addr"; pure (some a.text)
+
+/-- `execute_update_marketing`.  `Unauthorized` when there is no marketing info, no marketing address,
+or the sender is not that address.  When every field ends up empty the item is removed. -/
+def execUpdateMarketing (s : State) (snd : Addr) (project description : Option String)
+    (marketing : Option AddrArg) : Res (State × List Out) :=
+  match s.marketing with
+  | none => .error "unauthorized"
+  | some mi =>
+    match mi.marketing with
+    | none => .error "unauthorized"
+    | some owner => do
+      check (decide (owner = snd)) "unauthorized"
+      let addr ← updAddr mi.marketing marketing
+      let mi' : MarketingInfo :=
+        ⟨updText mi.project project, updText mi.description description, addr, mi.logo⟩
+      if mi'.project.isNone && mi'.description.isNone && mi'.marketing.isNone && mi'.logo.isNone then
+        pure ({ s with marketing := none }, [])
+      else
+        pure ({ s with marketing := some mi' }, [])
+
+/-- `execute_upload_logo`: the logo is verified before the sender is. -/
+def execUploadLogo (s : State) (snd : Addr) (logo : Logo) : Res (State × List Out) :=
+  match s.marketing with
+  | none => .error "unauthorized"
+  | some mi => do
+    verifyLogo logo
+    match mi.marketing with
+    | none => .error "unauthorized"
+    | some owner => do
+      check (decide (owner = snd)) "unauthorized"
+      pure ({ s with logo := some logo, marketing := some { mi with logo := some (logoInfoOf logo) } }, [])
+
 def execute (s : State) (blk : Block) (snd : Addr) : Msg → Res (State × List Out)
   | .transfer to amt => execTransfer s snd to amt
   | .burn amt => execBurn s snd amt
@@ -254,6 +402,8 @@ def execute (s : State) (blk : Block) (snd : Addr) : Msg → Res (State × List 
   | .transferFrom o to amt => execTransferFrom s blk snd o to amt
   | .burnFrom o amt => execBurnFrom s blk snd o amt
   | .sendFrom o c amt p => execSendFrom s blk snd o c amt p
+  | .updateMarketing p d m => execUpdateMarketing s snd p d m
+  | .uploadLogo l => execUploadLogo s snd l
 
 /-- One transaction: commit on `ok`, roll back on error. -/
 def step (s : State) (blk : Block) (snd : Addr) (m : Msg) : State :=
@@ -289,6 +439,17 @@ def queryAllowance (s : State) (owner spender : AddrArg) : Res Allowance := do
   check owner.valid "addr"
   check spender.valid "addr"
   pure ((s.allow.get? (owner.text, spender.text)).getD Allowance.default)
+
+/-- `query_marketing_info`: the stored item or `MarketingInfoResponse::default()`. -/
+def queryMarketingInfo (s : State) : MarketingInfo := s.marketing.getD {}
+
+/-- `query_download_logo`: `(mime_type, data)`; fails when no logo is stored or it is a URL. -/
+def queryDownloadLogo (s : State) : Res (String × Bytes) :=
+  match s.logo with
+  | none => .error "not_found"
+  | some (.url _) => .error "not_found"
+  | some (.svg d) => pure ("image/svg+xml", d)
+  | some (.png d) => pure ("image/png", d)
 
 open Paginate in
 /-- `ALLOWANCES.prefix(owner)` as a map keyed by spender. -/
